@@ -50,6 +50,7 @@ struct call {
     void *val;
     bool waited;            /* was seen in a waiting list during the call */
     uint64_t first_arr; double first_et;   /* arrival number / entry time of its first waiting-list entry */
+    uint64_t last_arr; double last_et; uint64_t served_mark; int last_gd;   /* its latest entry, where, and how much the call had been served with when that entry was seen */
     bool granted_flag;
     bool obs_changed;       /* conditions: the set of observed guards changed while waiting */
     int dkind;              /* guard waits with an own demand: 0 "amount units free at once", 1 "user flag <amount> is up" */
